@@ -177,6 +177,11 @@ def decl_module(d, ops_wanted):
             else:
                 m = "match TT::from_str(s.as_str()) { Ok(v) => ok(v.into_inner()), Err(%s::Parse(_)) => \"parse_err\".to_string() }" % pe
             arms.append('"from_str" => guard(|| { let s = <String as Arg>::parse(arg); let p = <Inner as FromStr>::from_str(s.as_str()); let o = match &p { Ok(x) => x.show(), Err(_) => "none".to_string() }; let c = match p { Ok(raw) => { %s }, Err(_) => "-".to_string() }; format!("{} ## {} ## {}", %s, o, c) }),' % (ctor, m))
+    if "Display" in info.traits and d.family() == "int":
+        if info.has_validation:
+            arms.append('"show_i" => guard(|| { %s match TT::try_new(raw) { Ok(v) => v.to_string().show(), Err(_) => "rejected".to_string() } }),' % argp)
+        else:
+            arms.append('"show_i" => guard(|| { %s TT::new(raw).to_string().show() }),' % argp)
     if "Default" in info.traits and info.has_default:
         arms.append('"default" => guard(|| ok(TT::default().into_inner())),')
     if info.has_validation and not info.custom:
